@@ -2,7 +2,7 @@ import PhyModel.Proofs.StoreCache_create
 import PhyModel.Proofs.StoreCache_rmDp
 import PhyModel.Proofs.StoreCache_getSub
 import PhyModel.Proofs.StoreCache_rmSub
-import PhyModel.Proofs.StoreCache_addSub
+import PhyModel.Proofs.StoreCache_addSubIn
 import PhyModel.Proofs.StoreCache_dictRT
 /-! C06 over histories: one `step` on a system of live handles keeps every handle's cache in order;
 `run` over any list of operations does. -/
@@ -41,10 +41,9 @@ theorem forall_append_one {P : Store → Prop} {sys : Sys} {r : Store}
 
 /-- **C06, one edit on a system of handles.**  `WFc` (the part of C07's `WF` the cache proofs use:
 unique graph indices, name → index exact on the clones) of the handles before the edit is used to
-locate the recomputation path; `WFc` of the handles after it is used for `add_subtree` only (that the
-name → index map of the result sends the graft point's name to the graft point). -/
+locate the recomputation path. -/
 theorem cacheOK_step' (dt : Data) (hNZ : DataNZ dt) (sys sys' : Sys) (op : Op)
-    (hwf : ∀ s ∈ sys, WFc s) (hwf' : ∀ s ∈ sys', WFc s) (hin : InRange dt op)
+    (hwf : ∀ s ∈ sys, WFc s) (hin : InRange dt op)
     (hc : ∀ s ∈ sys, CacheOK dt s) (h : step dt sys op = some sys') :
     ∀ s ∈ sys', CacheOK dt s := by
   cases op with
@@ -97,9 +96,9 @@ theorem cacheOK_step' (dt : Data) (hNZ : DataNZ dt) (sys sys' : Sys) (op : Op)
     simp only [step, Option.bind_eq_bind, Option.bind_eq_some_iff, Option.pure_def] at h
     obtain ⟨s, hs, sb, hsb', r, hr, h⟩ := h
     cases h
-    have hrm : r ∈ setH sys hd r := List.mem_set (getElem?_lt hs) r
-    exact forall_setH hc (cacheOK_addSub dt s sb r par (hc s (mem_of_getElem? hs))
-      (hc sb (mem_of_getElem? hsb')) (hwf' r hrm) hr)
+    have hm := mem_of_getElem? hs
+    exact forall_setH hc (cacheOK_addSub_in dt s sb r par (hwf s hm) (hc s hm)
+      (hc sb (mem_of_getElem? hsb')) hr)
   | relabel hd =>
     simp only [step, Option.bind_eq_bind, Option.bind_eq_some_iff, Option.pure_def] at h
     obtain ⟨s, hs, h⟩ := h
@@ -125,21 +124,15 @@ theorem cacheOK_step' (dt : Data) (hNZ : DataNZ dt) (sys sys' : Sys) (op : Op)
     cases h
     exact forall_append_one hc (cacheOK_init dt)
 
-/-- `P` holds of every system state visited while running `ops` from `sys` (the last included) -/
+/-- `P` holds of every system state an operation of `ops` is applied to, running from `sys` -/
 def Along (dt : Data) (P : Sys → Prop) : Sys → List Op → Prop
-  | sys, [] => P sys
+  | _, [] => True
   | sys, op :: ops => P sys ∧ ∀ sys', step dt sys op = some sys' → Along dt P sys' ops
 
 theorem Along.mono {dt : Data} {P Q : Sys → Prop} (hPQ : ∀ sy, P sy → Q sy) :
     ∀ {ops : List Op} {sys : Sys}, Along dt P sys ops → Along dt Q sys ops
-  | [], _, h => hPQ _ h
+  | [], _, _ => trivial
   | _ :: _, _, h => ⟨hPQ _ h.1, fun sys' hs => Along.mono hPQ (h.2 sys' hs)⟩
-
-theorem Along.head {dt : Data} {P : Sys → Prop} {sys : Sys} {ops : List Op}
-    (h : Along dt P sys ops) : P sys := by
-  cases ops with
-  | nil => exact h
-  | cons _ _ => exact h.1
 
 theorem run_cons (dt : Data) (sys : Sys) (op : Op) (ops : List Op) :
     run dt sys (op :: ops) = (step dt sys op).bind fun sys1 => run dt sys1 ops := by
@@ -149,7 +142,7 @@ theorem run_cons (dt : Data) (sys : Sys) (op : Op) (ops : List Op) :
 /-- the state-predicate form of "along the run" from its prefix form -/
 theorem along_of_prefixes (dt : Data) (P : Sys → Prop) : ∀ (ops : List Op) (sys : Sys),
     (∀ pre post sys1, ops = pre ++ post → run dt sys pre = some sys1 → P sys1) → Along dt P sys ops
-  | [], sys, h => h [] [] sys rfl rfl
+  | [], _, _ => trivial
   | op :: ops, sys, h => by
     refine ⟨h [] (op :: ops) sys rfl rfl, fun sys' hs => ?_⟩
     apply along_of_prefixes dt P ops sys'
@@ -169,8 +162,8 @@ theorem cacheOK_run (dt : Data) (hNZ : DataNZ dt) : ∀ (ops : List Op) (sys sys
     rw [run_cons] at h
     simp only [Option.bind_eq_some_iff] at h
     obtain ⟨sys1, h1, h2⟩ := h
-    have hal1 := hal.2 sys1 h1
-    exact cacheOK_run dt hNZ ops sys1 sys' hal1 (fun o ho => hin o (List.mem_cons_of_mem _ ho))
-      (cacheOK_step' dt hNZ sys sys1 op hal.1 hal1.head (hin op List.mem_cons_self) hc h1) h2
+    exact cacheOK_run dt hNZ ops sys1 sys' (hal.2 sys1 h1)
+      (fun o ho => hin o (List.mem_cons_of_mem _ ho))
+      (cacheOK_step' dt hNZ sys sys1 op hal.1 (hin op List.mem_cons_self) hc h1) h2
 
 end PhyModel.Store
